@@ -475,6 +475,17 @@ def c12(sess):
                         out.append({"what": "items offered %r are not the first unset items %r of %s"
                                             % (ids, unset, o["id"]), "step": i})
                     conc = o.get("concurrency")
+                    # the limit is the declared one, read in the context the task is rendered with
+                    w = tasks.get(o["id"], {}).get("with")
+                    decl = w.get("concurrency") if isinstance(w, dict) else None
+                    m = re.fullmatch(r"(?:<%|\{\{) ctx\(\)\.(\w+) (?:%>|\}\})", decl) if isinstance(decl, str) else None
+                    if m and m.group(1) in (o.get("ctx") or {}):
+                        want = o["ctx"][m.group(1)]
+                        if isinstance(want, int) and not isinstance(want, bool) and conc != max(want, 1):
+                            out.append({"what": "%s offered with concurrency %r; its declared limit %s is %r in the "
+                                                "task's context" % (o["id"], conc, decl, want), "step": i})
+                    elif isinstance(decl, int) and not isinstance(decl, bool) and conc != max(decl, 1):
+                        out.append({"what": "%s offered with concurrency %r, declared %r" % (o["id"], conc, decl), "step": i})
                     if isinstance(conc, int) and not isinstance(conc, bool) and ids:
                         active = len([x for x in items if x in ACTIVE])
                         if len(ids) + active > max(conc, 1):
